@@ -159,7 +159,7 @@ CHECKS = {
     note=('real arithmetic; numpy hstack/reshape/ravel/slice on C-contiguous arrays modelled as row-major index maps (assumption), in the Python layer they run '
           'natively on symbolic object arrays (A4); prange(n) is taken to visit every index once (OpenMP scheduling itself is outside the contract; the frame '
           'obligation makes the order irrelevant); Python-layer point sets are bounded (3 and 6 points); '
-          '6 known findings (quadratic strain terms), 1 fixed defect (NLterms not forwarded by Panel.stress)'),
+          '3 fixed defects (NLterms not forwarded by Panel.stress; quadratic strain terms of cfstrain accumulated per series term; uvw_stiffener slices)'),
     technique='contracts + symbolic execution (generic-iteration loop schema with sum terms); exact normal form'),
  'C13': dict(
     category='proof',
